@@ -13,10 +13,11 @@ THEOREMS = [
     'Pysmi.Searcher.C10_pyfile_exact_partial',
     'Pysmi.Searcher.C10_rebuild_files',
     'Pysmi.Searcher.C10_stub',
-    'Pysmi.Searcher.C10_pyc_flags_witness',
+    'Pysmi.Searcher.C10_pyfile_pyc',
+    'Pysmi.Searcher.C10_stale_pyc_decides',
 ]
 TECHNIQUE = 'Lean 4 theorems about a model of MibCompiler.compile over abstract component oracles; differential correspondence (status map + full call trace) against the real compile() driven by scripted doubles; oracle search'
-LEVEL_TEXT = ("Compile level, proved in Lean for every searcher list and answer assignment: searchers asked in order up to and including the first fresh answer (every other answer moves on); a parsed module is untouched and removed from generation iff some searcher says fresh or noDeps excludes it; the generator is called exactly once per remaining module. The file searchers' own decision is modelled (Model/Searcher.lean) and proved exact for every directory content, extension list, mtime and rebuild setting (AnyFileSearcher fully; PyFileSearcher under the hypothesis that no good-magic .pyc sits beside the module - the excluded case is the recorded finding F18 with its witness theorem); stub lists are not overridden by rebuild. Tied to the real searchers on scratch directories (all mtime orderings around equality, same-named directories, other extensions, bad/good .pyc headers, one searcher instance reused while the directory changes).")
+LEVEL_TEXT = ("Compile level, proved in Lean for every searcher list and answer assignment: searchers asked in order up to and including the first fresh answer (every other answer moves on); a parsed module is untouched and removed from generation iff some searcher says fresh or noDeps excludes it; the generator is called exactly once per remaining module. The file searchers' own decision is modelled (Model/Searcher.lean) and proved exact for every directory content, extension list, mtime and rebuild setting (AnyFileSearcher fully; PyFileSearcher: by the source suffixes when no byte-code file with a usable header sits beside the module, otherwise by the timestamp inside the first such file - C10_pyfile_pyc; the flags-word defect F18 is repaired); stub lists are not overridden by rebuild. Tied to the real searchers on scratch directories (all mtime orderings around equality, same-named directories, other extensions, bad / good / hash-based / cut-off .pyc headers, one searcher instance reused while the directory changes).")
 LEVEL_NOTE = ('Trusted: Lean kernel + standard axioms; the hand-written model of compile() (Model/Compile.lean), tied to '
               '/repo by the correspondence on every run; component doubles stand for readers/parser/generators/searchers/'
               'borrowers/writer (their real behaviour is the subject of other properties).')
@@ -46,10 +47,15 @@ def set_entry(d, name, ent, magic):
     _, t, hdr = ent
     with open(p, 'wb') as f:
         if name.endswith('.pyc'):
+            # CPython >= 3.7 (PEP 552): magic, flags word, source timestamp, source size
             if hdr is None:
                 f.write(b'BAD!' + b'\0' * 12)
+            elif hdr == 'hash':
+                f.write(magic + struct.pack('<L', 1) + b'\x11' * 8)          # hash-based: no timestamp inside
+            elif hdr == 'short':
+                f.write(magic + b'\0\0\0')                                  # cut off inside the header
             else:
-                f.write(magic + struct.pack('<L', hdr) + b'\0' * 8)
+                f.write(magic + struct.pack('<L', 0) + struct.pack('<L', hdr) + b'\0' * 4)
         else:
             f.write(b'x')
     os.utime(p, (t, t))
@@ -70,7 +76,8 @@ def real_searchers(ctx):
     reqs, metas = [], []
     times = [SRC - 1, SRC, SRC + 1]
     plain = ['absent', 'dir'] + [['file', t, None] for t in times]
-    pyc = ['absent', 'dir', ['file', SRC + 5, None]] + [['file', SRC + 5, h] for h in (0, SRC - 1, SRC, SRC + 1)]
+    pyc = ['absent', 'dir', ['file', SRC + 5, None], ['file', SRC + 5, 'hash'], ['file', SRC + 5, 'short']] + \
+        [['file', SRC + 5, h] for h in (0, SRC - 1, SRC, SRC + 1)]
     base = scratch_dir()
 
     def ask(s, name, mtime, rebuild):
@@ -119,11 +126,18 @@ def real_searchers(ctx):
                 set_entry(d, 'X-MIB' + sfx, e, PY_MAGIC_NUMBER)
             for rebuild in (False, True):
                 got = ask(pys, 'X-MIB', SRC, rebuild)
-                good_pyc = isinstance(ents['.pyc'], list) and ents['.pyc'][2] is not None
-                fresh = None if good_pyc else (isinstance(ents['.py'], list) and ents['.py'][1] >= SRC)
+                good_pyc = isinstance(ents['.pyc'], list) and isinstance(ents['.pyc'][2], int)
+                py_fresh = isinstance(ents['.py'], list) and ents['.py'][1] >= SRC
+                if good_pyc:
+                    # the timestamp inside a byte-code file decides; a stale one beside a fresh source is left undecided
+                    fresh = True if ents['.pyc'][2] >= SRC else (None if py_fresh else False)
+                else:
+                    fresh = py_fresh
+                # for the model a byte-code file without a usable timestamp is one without a good header
+                ments = {k: ([v[0], v[1], None] if isinstance(v, list) and isinstance(v[2], str) else v) for k, v in ents.items()}
                 reqs.append({'op': 'searcher', 'kind': 'py', 'mtime': SRC, 'rebuild': rebuild,
                              'bytecode': list(BYTECODE_SUFFIXES), 'source': list(SOURCE_SUFFIXES),
-                             'entries': [[k, v] for k, v in ents.items()]})
+                             'entries': [[k, v] for k, v in ments.items()]})
                 metas.append((('py', 'X-MIB', ents, rebuild), got, None if fresh is None else (fresh and not rebuild)))
         stub = StubSearcher('A-MIB', 'B-MIB')
         for name in ('A-MIB', 'B-MIB', 'C-MIB', 'a-mib'):
@@ -142,7 +156,6 @@ def real_searchers(ctx):
             key = 'searcher-exact'
             res.oracle_failures.append({'key': key, 'what': '%s searcher answered %s for %r (up to date: %s, rebuild=%s)' % (
                 case[0], got, case[2], fresh, case[3]), 'input': {'searcher': list(case)}})
-    # the legacy .pyc finding (F18) is replayed from known_findings.json, not generated here
     if ctx.model is not None:
         for (case, got, _), out in zip(metas, ctx.model.batch(reqs)):
             if out != got:
@@ -180,7 +193,8 @@ def replay(payload):
 
 
 def replay_pyc(layout):
-    """layout: {'.py': mtime offset, '.pyc': header word}: fresh .py beside a legacy .pyc"""
+    """layout: {'.py': mtime offset, '.pyc': offset of the timestamp inside the byte-code file}: an up-to-date .py
+    beside the legacy .pyc CPython wrote for it"""
     import os
     import shutil
     from common import scratch_dir
@@ -189,7 +203,7 @@ def replay_pyc(layout):
     d = scratch_dir()
     try:
         set_entry(d, 'X-MIB.py', ['file', SRC + layout['.py'], None], PY_MAGIC_NUMBER)
-        set_entry(d, 'X-MIB.pyc', ['file', SRC + 5, layout['.pyc']], PY_MAGIC_NUMBER)
+        set_entry(d, 'X-MIB.pyc', ['file', SRC + 5, SRC + layout['.pyc']], PY_MAGIC_NUMBER)
         try:
             PyFileSearcher(d).fileExists('X-MIB', SRC)
             got = 'ret'
